@@ -19,6 +19,35 @@ Definition annexJ (a b c d s : Z) : Z * Z * Z * Z :=
   let d2 := clamp (- lim) lim (Z.quot (a - d) 4) in
   (a - d2, clip255 (b + d1), clip255 (c - d1), d + d2).
 
+(* The deblocked image, pointwise.  `edge_of n p`: the 8-aligned interior edge e
+   (index of sample C) whose four straddling samples e-2..e+1 contain position p
+   and all lie inside 0..n-1; None when p is more than two away from such an edge. *)
+Definition sel4 (i : Z) (t : Z * Z * Z * Z) : Z :=
+  let '(a, b, c, d) := t in
+  if i =? 0 then a else if i =? 1 then b else if i =? 2 then c else d.
+Definition edge_of (n p : Z) : option Z :=
+  let e := 8 * ((p + 2) / 8) in
+  if (8 <=? e) && (e + 1 <? n) && (p <=? e + 1) then Some e else None.
+(* first pass: across horizontal block edges (samples run vertically) *)
+Definition horiz_spec (img : Z -> Z -> Z) (h s x y : Z) : Z :=
+  match edge_of h y with
+  | Some e => sel4 (y - (e - 2)) (annexJ (img x (e - 2)) (img x (e - 1)) (img x e) (img x (e + 1)) s)
+  | None => img x y
+  end.
+(* second pass: across vertical block edges *)
+Definition vert_spec (img : Z -> Z -> Z) (w s x y : Z) : Z :=
+  match edge_of w x with
+  | Some e => sel4 (x - (e - 2)) (annexJ (img (e - 2) y) (img (e - 1) y) (img e y) (img (e + 1) y) s)
+  | None => img x y
+  end.
+Definition annexJ_image (img : Z -> Z -> Z) (w h s : Z) : Z -> Z -> Z :=
+  vert_spec (horiz_spec img h s) w s.
+(* executable form over a flat row-major list *)
+Definition flat_img (data : list Z) (w : Z) (x y : Z) : Z := nth (Z.to_nat (x + y * w)) data 0.
+Definition annexJ_flat (data : list Z) (w h s : Z) : list Z :=
+  flat_map (fun y => map (fun x => annexJ_image (flat_img data w) w h s (Z.of_nat x) (Z.of_nat y))
+                         (seq 0 (Z.to_nat w))) (seq 0 (Z.to_nat h)).
+
 (* Table J.2: QUANT -> STRENGTH, entry 0 unused. *)
 Definition table_J2 : list Z :=
   [0; 1; 1; 2; 2; 3; 3; 4; 4; 4; 5; 5; 6; 6; 7; 7; 7; 8; 8; 8; 9; 9; 9; 10; 10; 10; 11; 11; 11;
